@@ -457,6 +457,15 @@ func (p *Prog) resolveRole(role string) (*ssa.Function, error) {
 			if len(Calls(f, "reflect.StructOf")) > 0 && p.callsFn(f, w) {
 				c = append(c, f)
 			}
+			// … and the function that decides between the direct struct form and lifting (asks the marker test, then
+			// walks the struct)
+			if p.callsFn(f, w) && f != w {
+				for _, ci := range Calls(f) {
+					if cal := ci.Common().StaticCallee(); cal != nil && cal.Name() == "isStruct" && p.InTarget(cal) {
+						c = append(c, f)
+					}
+				}
+			}
 		}
 		return one(role, c)
 
